@@ -111,7 +111,10 @@ def call_request(gen, op, obj, cs):
             if op['op'] == 'getv':
                 t = gen.getVerilog(obj, noInstanceNumber=op['noinst'], forceName=op['force'])
             else:
-                t = gen.getVerilogForHierarchy(obj, noInstanceNumberInTopEntity=op['noinst'], forceName=op['force'], createdStructures=cs)
+                if cs is None:        # as users call it: the DEFAULT of createdStructures is part of what is checked
+                    t = gen.getVerilogForHierarchy(obj, noInstanceNumberInTopEntity=op['noinst'], forceName=op['force'])
+                else:
+                    t = gen.getVerilogForHierarchy(obj, noInstanceNumberInTopEntity=op['noinst'], forceName=op['force'], createdStructures=cs)
         return ('ok', t)
     except Exception as ex:           # the generator raises plain Exception / KeyError on ill-formed circuits
         return ('exc', '%s: %s' % (type(ex).__name__, re.sub(r'0x[0-9a-f]+', '0x', str(ex))[:200]))
@@ -300,7 +303,7 @@ class History:
             after = [L.snapshot(c.hw) for c in A]
             real_cache = (-1, []) if R.wire_names_cache_obj is None else (
                 id(R.wire_names_cache_obj), [(id(k), v) for k, v in (R.wire_names_cache or {}).items()])
-            real_created = list(g.created_structures)
+            real_created = list(g.created_structures) if isinstance(g.created_structures, list) else None
             ctx.count(('req', op['op'], fams[ci], path is None, op['noinst'], op['force'] is None, cs is not None,
                        type(target).__name__), nontrivial=(res[0] == 'ok' and len(res[1]) > 0))
             # purity
@@ -310,6 +313,18 @@ class History:
             if self.fail: break
             if pr.bad:
                 self.violation('getWireNames returned something else than recomputation from an empty cache', {'call': pr.bad[0]}); break
+            # oracle 0 (needs no second generation, hence independent of any process-wide state): the modules DEFINED in the
+            # answer are exactly those of the walk: the requested block, then its non-inlinable descendants in pre-order,
+            # each module name once, minus the names the caller's list already holds
+            if res[0] == 'ok':
+                exp_names = self.skeleton(g, target, op, pre)
+                got_names = [n for n, _ in modules_of(res[1])]
+                if exp_names is not None and got_names != exp_names:
+                    missing = [n for n in exp_names if n not in got_names]
+                    extra = [n for n in got_names if n not in exp_names]
+                    self.violation('the answer does not define the modules of the requested block and its sub-blocks (it depends on earlier requests)',
+                                   {'object': target.getFullPath(), 'missing_modules': missing[:12], 'unexpected_modules': extra[:12],
+                                    'defined': got_names[:20], 'expected': exp_names[:20], 'text_length': len(res[1])}); break
             attrs = set(vars(g).keys())
             if attrs != EXPECTED_SELF:
                 self.violation('the generator object carries state the model does not have', {'attributes': sorted(attrs)}, found_input=False); break
@@ -378,6 +393,27 @@ class History:
         if tie and not self.fail and env0 is not None:
             return {'env': env0, 'reqs': reqs, 'expect': expect, 'strs': self.tk.strs, 'hist': self}
         return None
+
+    def skeleton(self, g, target, op, pre):
+        """names of the modules a request must define, in order (module naming and the walk only; no generation)"""
+        R = self.R
+        created, out = list(pre or []), []
+        def inline_top(o):
+            return o.isPropagatable() and not g.isProvidingBody(o) and g.isInlinable(o)
+        def walk(o, top):
+            noinst = op['noinst'] if top else False
+            force = op['force'] if top else None
+            name = force if force is not None else R.getVerilogModuleName(o, noInstanceNumber=noinst)
+            if name not in created and not inline_top(o):
+                out.append(name); created.append(name)
+            if op['op'] == 'geth':
+                for ch in o.children.values():
+                    if not g.isInlinable(ch): walk(ch, False)
+        try:
+            walk(target, True)
+        except Exception:
+            return None
+        return out
 
     def compose(self, g, target, op, pre):
         """expected modules of getVerilogForHierarchy(target): pre-order walk over non-inlinable children, one getVerilog per
@@ -599,8 +635,14 @@ def fixed_scenarios(ctx):
                        'circuit': 'HWSystem{u1=Add(x,x,r1); bx=Box2{add=Add(a,b,r)}}'})
         return []
     ctx.count(('fixed', 'F2'))
+    if not {'HWSystem', 'Add8', 'Sign9'} <= set(ta) or not {'Box2', 'Add8', 'Sign9'} <= set(tb) or len(ta) != 5 or len(tb) != 4:
+        ctx.violation({'what': 'the answer does not define the modules of the requested block and its sub-blocks (it depends on earlier requests)',
+                       'circuit': 'HWSystem{u1=Add(x,x,r1); bx=Box2{add=Add(a,b,r), cmp=Comparator}}',
+                       'scenario': 'fixed', 'history': ['g=VerilogGenerator(hw)', 'g.getVerilogForHierarchy()', 'g.getVerilogForHierarchy(bx)'],
+                       'modules_of_first_answer': sorted(ta), 'modules_of_second_answer': sorted(tb)})
+        return []
     if ta.get('Add8') != tb.get('Add8'):
-        if 'C19-F2' in k:
+        if 'C19-F2' in k and 'assign r = b + b + w_ci;' in ta['Add8'] and 'assign r = a + b + w_ci;' in tb['Add8']:
             ctx.known_finding('C19-F2', 'module Add8 (named by structureName(), shared by 2 instances) has a different text depending on the object the request '
                                         'starts from: instance u1 = Add(x, x, r1) has two ports on one wire and the port-name map of getWireNames keeps the last')
         else:
@@ -691,6 +733,11 @@ def run(ctx):
 def replay(rp):
     """re-run the recorded history (deterministic in its seed) and report"""
     ctx = common.Ctx('C19', 'quick', 1)
+    if rp.get('scenario') == 'fixed':
+        fixed_scenarios(ctx)
+        if ctx.violations:
+            print('replay: REPRODUCED: %s; history: %s' % (rp.get('what'), rp.get('history'))); return 1
+        print('replay: the fixed scenario runs clean now'); return 0
     if 'history_seed' not in rp or rp.get('history_seed') is None:
         print('replay: this file describes a broken obligation / correspondence:'); print(json.dumps(rp, indent=1)[:3000]); return 0
     h = History(ctx, rp['history_seed'], rp['mode'], rp['n_ops'], False)
